@@ -148,9 +148,14 @@ CHECKS.update({
             "NumVersionsToKeep=1 restore comparison (visible state); the restored database runs outside the scheduler after the run has quiesced.", "3/C24"),
 })
 
+CHECKS.update({
+    "C26": ("exploration", "deterministic simulation: StreamWriter's per-stream writer and table-builder goroutines as scheduled actors + exact all-versions comparison with the streamed entries",
+            "Generated sorted streams (nesting keys, several versions, values around the threshold, delete/discard/expiry bits) cut into Write calls of random size and interleaving, StreamDone markers, one or two writer clients, Prepare / PrepareIncremental rounds, compression/encryption/table-size swarm; after every Flush the all-versions scan equals exactly the streamed entries plus the earlier round, Get agrees, new transactions read and commit above every streamed version, and the close / read-only / re-open cycle shows the same contents and structure.",
+            "No compactor runs in this scenario (exact equality of all versions would otherwise depend on retention). Incremental rounds stream versions above the existing ones.", "3/C26"),
+})
+
 PENDING = {
     "C23": "not claimed: the encryption-at-rest scenario (plaintext scan of every file, (keyID, IV) uniqueness, wrong-key refusal) is not implemented in this revision; encryption is only a swarm option of the other scenarios",
-    "C26": "not claimed: the StreamWriter scenario is not implemented in this revision",
 }
 
 def main():
